@@ -80,7 +80,8 @@ impl Buf for SimBuf {
 
 #[derive(Clone, Debug)]
 pub struct NetCfg {
-    /// 0 whole, 1 mixed sizes, 2 tiny (1..3 bytes) while the stream is short, 3 frame-boundary biased
+    /// 0 whole, 1 mixed sizes, 2 tiny (1..3 bytes) while the stream is short, 3 frame-boundary biased,
+    /// 4 trickle (1..2 bytes at a time however long the stream; only where a check asks for it)
     pub chunk_mode: u8,
     /// 0 = writes never pend; else a write pends with probability 1/den per acceptance step
     pub write_pend_den: u32,
@@ -477,6 +478,7 @@ impl Net {
                     draw_size(avail)
                 }
             }
+            4 => (1 + draw_usize(2)).min(avail), // trickle: one or two bytes at a time, however long the stream
             _ => {
                 // boundary biased
                 let uni = is_uni(id);
